@@ -311,6 +311,32 @@ pub fn run_c06(args: &Args) -> Report {
             }
         }
     }
+    // an output that contains U+FFFD (EF BF BD): changing EF to F0 makes the file invalid UTF-8 whose *lossy* decoding is the
+    // same text - verify compares bytes, so it must fail; likewise for a byte changed into an overlong / truncated sequence
+    if args.shard == 0 {
+        let src = "caf\u{fffd} au lait\nsecond \u{fffd}\u{fffd} line\n".as_bytes().to_vec();
+        let p = Project { files: vec![("lossy.txt.txtpp".into(), src)], dirs: vec![], cmds: vec![], sources: vec!["lossy.txt.txtpp".into()], sig: vec![], expect_error: false };
+        materialize(&p, &runner.dir);
+        let mut cfg = RunCfg::build_all();
+        cfg.threads = 1;
+        let b = runner.run_here(&cfg, &p.cmds, vec!["lossy|build".into()], "output with U+FFFD: build");
+        if let Some(out) = runner.cases[b].imp.after.files.get("lossy.txt").cloned() {
+            let mut vcfg = cfg.clone();
+            vcfg.mode = "verify";
+            let positions: Vec<usize> = out.iter().enumerate().filter(|(_, b)| **b == 0xEF).map(|(i, _)| i).collect();
+            for (k, at) in positions.iter().enumerate() {
+                for newb in [0xF0u8, 0xE0, 0xFF] {
+                    let mut t = out.clone();
+                    t[*at] = newb;
+                    let _ = std::fs::write(runner.dir.join("lossy.txt"), &t);
+                    let v = runner.run_here(&vcfg, &p.cmds, vec![format!("lossy|tamper{k}|{newb:x}")], &format!("output with U+FFFD: byte {at} changed to {newb:#x}"));
+                    if runner.cases[v].imp.verdict == "ok" {
+                        viol(&mut rep, &runner, v, format!("C06: verify passes although byte {at} of the output was changed from 0xef to {newb:#x} (the file is no longer valid UTF-8; its lossy decoding equals the fresh text)"));
+                    }
+                }
+            }
+        }
+    }
     // outputs much larger than any I/O buffer (8 KiB BufReader/BufWriter, 64 KiB pipes): lines and included blocks of
     // many sizes, so that compared chunks straddle every buffer boundary; verify right after the build must pass, and
     // one changed byte far into the file must fail
@@ -509,6 +535,27 @@ pub fn run_c07(args: &Args) -> Report {
         }
         if i == 0 {
             rep.sample(format!("history {hist} on sources {:?} inputs {:?}: clean => {}", p.sources, cfg.inputs, runner.cases.last().unwrap().imp.verdict));
+        }
+    }
+    // an output path that is a symbolic link to a hand-written file elsewhere: clean removes the link (the output path),
+    // never the file it points to
+    if args.shard == 0 {
+        let d = runner.dir.clone();
+        let _ = std::fs::remove_dir_all(&d);
+        std::fs::create_dir_all(d.join("hand")).unwrap();
+        std::fs::write(d.join("a.txt.txtpp"), "generated\n").unwrap();
+        std::fs::write(d.join("hand/target.txt"), "handwritten\n").unwrap();
+        let _ = std::os::unix::fs::symlink("hand/target.txt", d.join("a.txt"));
+        let mut cfg = RunCfg::build_all();
+        cfg.mode = "clean";
+        cfg.threads = 1;
+        let o = run_impl(&d, &cfg, &runner.log);
+        rep.count("symlinked-output-clean");
+        let target = std::fs::read(d.join("hand/target.txt")).ok();
+        let link_left = std::fs::symlink_metadata(d.join("a.txt")).is_ok();
+        if o.verdict != "ok" || target.as_deref() != Some(b"handwritten\n".as_ref()) || link_left {
+            let what = format!("C07: clean of a source whose output path `a.txt` is a symbolic link to `hand/target.txt`: verdict `{}`, the link {} the file it points to {}", o.verdict, if link_left { "is still there," } else { "was removed," }, if target.is_some() { "still exists" } else { "WAS DELETED" });
+            rep.violation("oracle", &what, &format!("# {what}\n# a.txt.txtpp = \"generated\\n\"; a.txt -> hand/target.txt (\"handwritten\\n\"); txtpp clean .\n"));
         }
     }
     compare_all(&mut rep, &runner, &model, "C07", "C07.clean_executes_nothing, clean_never_fails_on_directives, clean_creates_nothing, clean_removes_output");
@@ -779,6 +826,27 @@ pub fn run_c09(args: &Args) -> Report {
     }
     report_side_condition(&mut rep, &model, &safe_reqs);
     report_project_condition(&mut rep, &model, &proj_reqs, "needed");
+    // a stale output behind a symbolic link: the only-if-needed build updates the file the link points to, like a normal
+    // build, and leaves the link a link
+    if args.shard == 0 {
+        let d = runner.dir.clone();
+        let _ = std::fs::remove_dir_all(&d);
+        std::fs::create_dir_all(d.join("deploy")).unwrap();
+        std::fs::write(d.join("b.txt.txtpp"), "new content\n").unwrap();
+        std::fs::write(d.join("deploy/b.txt"), "stale\n").unwrap();
+        let _ = std::os::unix::fs::symlink("deploy/b.txt", d.join("b.txt"));
+        let mut cfg = RunCfg::build_all();
+        cfg.mode = "needed";
+        cfg.threads = 1;
+        let o = run_impl(&d, &cfg, &runner.log);
+        rep.count("symlinked-output-needed");
+        let target = std::fs::read(d.join("deploy/b.txt")).ok();
+        let is_link = std::fs::symlink_metadata(d.join("b.txt")).map(|m| m.file_type().is_symlink()).unwrap_or(false);
+        if o.verdict != "ok" || target.as_deref() != Some(b"new content\n".as_ref()) || !is_link {
+            let what = format!("C09: only-if-needed build over a stale output behind a symbolic link (`b.txt` -> `deploy/b.txt`): verdict `{}`, deploy/b.txt = {:?}, b.txt is {} - a normal build writes through the link", o.verdict, target.map(|t| String::from_utf8_lossy(&t).to_string()), if is_link { "still a link" } else { "no longer a link" });
+            rep.violation("oracle", &what, &format!("# {what}\n"));
+        }
+    }
     if args.shard == 0 {
         run_corners(&mut rep, &mut runner, "C09");
     }
